@@ -228,6 +228,89 @@ def snap_batch(cases_path, out_path, workdir):
     json.dump(out, open(out_path, "w"))
 
 
+def fisher_main_batch(cases_path, out_path, workdir):
+    """cases: [{id,k,small,tie,tmpl}] -> the row test_all_Fisher.main WRITES for the case's function (codelen_comp<n>_deriv.dat) and the
+    Hessian row (derivs_comp<n>.dat), on an exactly solvable model (data = model at theta, so the Hessian is J^T J / sigma^2 exactly).
+    tmpl 'lin': a0*x (+ a1 (+ a2*x**2));  'pole': a1*x + 1/a0 (infinite likelihood whenever a0 = 0)."""
+    import io, contextlib, math, shutil
+    import numpy as np
+    import esr.fitting.test_all_Fisher as tf
+    cases = json.load(open(cases_path))
+    n = 3
+    out = []
+    for c in cases:
+        k, sigma = c["k"], 0.5
+        x = np.linspace(0.5, 2.5, 12)
+        sgn = lambda i: -1.0 if i % 2 else 1.0
+        mag = lambda i, thr: sgn(i) * thr * (1.0 if (i + 1) in c["tie"] else 0.4 if (i + 1) in c["small"] else 3.0)
+        if c["tmpl"] == "pole":
+            fstr = "a1*x + 1/a0"
+            # I_00 = N / (a0^4 sigma^2): |a0| sqrt(I_00 / 12) < 1  <=>  |a0| > sqrt(N/12) / sigma   (a LARGE a0 is the small one)
+            t0 = math.sqrt(len(x) / 12.0) / sigma
+            a0v = sgn(0) * t0 / (1.0 if 1 in c["tie"] else 0.4 if 1 in c["small"] else 3.0)
+            a1v = mag(1, math.sqrt(12.0 * sigma ** 2 / float(np.sum(x * x))))
+            theta = np.array([a0v, a1v])
+            J = np.array([np.full(len(x), -1.0 / a0v ** 2), x]).T
+            model = lambda p: p[1] * x + (1.0 / p[0] if p[0] != 0 else np.inf)
+        else:
+            cols = {1: [x], 2: [x, np.ones_like(x)], 3: [x, np.ones_like(x), x * x]}[k]
+            fstr = {1: "a0*x", 2: "a0*x + a1", 3: "a0*x + a1 + a2*x**2"}[k]
+            J = np.array(cols).T
+            thr = np.sqrt(12.0 * sigma ** 2 / np.sum(J * J, axis=0))
+            theta = np.array([mag(i, thr[i]) for i in range(k)])
+            model = lambda p: J @ np.asarray(p[:k])
+        I = J.T @ J / sigma ** 2
+        y = model(theta)
+        nll_at = lambda p: float(np.sum(0.5 * (model(p) - y) ** 2 / sigma ** 2 + 0.5 * math.log(2 * math.pi) + math.log(sigma))) if np.all(np.isfinite(model(p))) else float("inf")
+        dd = os.path.join(workdir, "c%d" % c["id"])
+        shutil.rmtree(dd, ignore_errors=True)
+        os.makedirs(dd)
+        np.savetxt(os.path.join(dd, "d.txt"), np.transpose([x, y, np.full(len(x), sigma)]))
+        like = make_like("gauss", "d.txt", "r", dd, "core_maths")
+        like.fn_dir = os.path.join(dd, "lib")
+        os.makedirs(os.path.join(like.fn_dir, "compl_%d" % n))
+        with open(os.path.join(like.fn_dir, "compl_%d" % n, "unique_equations_%d.txt" % n), "w") as f:
+            f.write(fstr + "\nx\n")
+        for d_ in (like.out_dir, like.temp_dir):
+            os.makedirs(d_, exist_ok=True)
+        nll_x = float(np.sum(0.5 * (x - y) ** 2 / sigma ** 2 + 0.5 * math.log(2 * math.pi) + math.log(sigma)))
+        with open(os.path.join(like.out_dir, "negloglike_comp%d.dat" % n), "w") as f:
+            f.write(" ".join("%.12e" % v for v in [nll_at(theta)] + list(theta) + [0.0] * (4 - k)) + "\n")
+            f.write(" ".join("%.12e" % v for v in [nll_x, 0.0, 0.0, 0.0, 0.0]) + "\n")
+        rec = {"id": c["id"]}
+        try:
+            with contextlib.redirect_stdout(io.StringIO()):
+                tf.main(n, like, tmax=60)
+            rows = np.atleast_2d(np.genfromtxt(os.path.join(like.out_dir, "codelen_comp%d_deriv.dat" % n)))
+            der = np.atleast_2d(np.genfromtxt(os.path.join(like.out_dir, "derivs_comp%d.dat" % n)))
+            rec["nrows"] = int(rows.shape[0])
+            codelen, nll, params = float(rows[0, 0]), float(rows[0, 1]), rows[0, 2:2 + k]
+            zeros = [i + 1 for i in range(k) if params[i] == 0.0]
+            kept = [i for i in range(k) if params[i] != 0.0]
+            rec["len"] = "nan" if math.isnan(codelen) else ("posinf" if math.isinf(codelen) and codelen > 0 else "finite" if math.isfinite(codelen) else "neginf")
+            expect = -(len(kept) / 2.0) * math.log(3.0) + sum(0.5 * math.log(I[i, i]) + math.log(abs(theta[i])) for i in kept)
+            rec["formula"] = bool(math.isfinite(codelen) and abs(codelen - expect) <= 1e-5 * max(1.0, abs(expect)))
+            rec["codelen"], rec["expect"], rec["zeros"] = codelen, expect, zeros
+            rep = [0.0 if (i + 1) in zeros else theta[i] for i in range(k)]
+            at_rep = nll_at(rep)
+            rec["nllok"] = bool((math.isinf(at_rep) and math.isinf(nll)) or abs(nll - at_rep) <= 1e-6 * max(1.0, abs(at_rep)))
+            rec["params_are_ml_or_zero"] = bool(all(params[i] == 0.0 or abs(params[i] - theta[i]) <= 1e-6 * abs(theta[i]) for i in range(k)) and
+                                                 all(v == 0.0 for v in rows[0, 2 + k:]))
+            rec["nll"], rec["nll_at_reported"] = nll, at_rep
+            # the Hessian row: upper triangle, row-major, of the observed Fisher matrix (a snapped parameter's entries are not fixed by the property)
+            tri = [I[i, j] for i in range(k) for j in range(i, k)]
+            full = [(i, j) for i in range(4) for j in range(i, 4)]
+            got = {ij: der[0, q] for q, ij in enumerate(full)} if der.shape[1] == len(full) else {}
+            rec["hessian_ok"] = bool(got and all(abs(got[(i, j)] - I[i, j]) <= 1e-4 * math.sqrt(I[i, i] * I[j, j]) for i in kept for j in kept if j >= i))
+            # the parameter-free function of the same library: no parameters, so no parameter code (0) and its own likelihood
+            rec["free_row_ok"] = bool(rows.shape[0] == 2 and rows[1, 0] == 0.0 and abs(rows[1, 1] - nll_x) <= 1e-6 * max(1.0, abs(nll_x)) and np.all(rows[1, 2:] == 0.0))
+        except Exception as e:
+            rec["raised"] = "%s: %s" % (type(e).__name__, e)
+        out.append(rec)
+        shutil.rmtree(dd, ignore_errors=True)
+    json.dump(out, open(out_path, "w"))
+
+
 # ----------------------------------------------------------------------------- C17: substitution file round trip under P ranks
 def load_subs_roundtrip(fname, max_param, out_path):
     """load_subs on all ranks; rank 0 stores a projection of what was loaded (independent of sympy objects' identity)."""
